@@ -322,6 +322,64 @@ theorem matchQ_stops (t : Nat) (q : List Nat) (st : MatchSt) (hv : ∀ j ∈ q, 
         right; right
         exact ⟨j, rfl, by simpa [priceOf, hget] using had'⟩
 
+/-- The aggressor's status and end time when the loop returns (it arrived with volume left): Filled,
+ended now, exactly when nothing is left of it; otherwise as it arrived. -/
+theorem matchQ_agg_status (t : Nat) (q : List Nat) (st : MatchSt) (hv : ∀ j ∈ q, j < st.orders.length) (hV : 0 < st.agg.vol) :
+    (matchQ t q st).2.agg.status = (if (matchQ t q st).2.agg.vol = 0 then .filled else st.agg.status) ∧
+    (matchQ t q st).2.agg.endt = (if (matchQ t q st).2.agg.vol = 0 then t else st.agg.endt) := by
+  induction q generalizing st with
+  | nil =>
+    have : st.agg.vol ≠ 0 := by omega
+    simp [matchQ, this]
+  | cons j q ih =>
+    have hj : j < st.orders.length := hv j (List.mem_cons_self ..)
+    have hget : st.orders[j]? = some st.orders[j] := List.getElem?_eq_getElem hj
+    by_cases had : admits st.agg.side st.agg.price st.orders[j].price = true
+    · by_cases hle : st.orders[j].vol ≤ st.agg.vol
+      · rw [matchQ_cons_full t j q st _ hget hV had hle]
+        have hv' : ∀ i ∈ q, i < (stFull t st j st.orders[j]).orders.length := by
+          intro i hi; simp only [stFull, List.length_set]; exact hv i (List.mem_cons_of_mem _ hi)
+        by_cases hrem : st.agg.vol - st.orders[j].vol = 0
+        · -- exhausted exactly: the next call stops at once
+          have hz : (stFull t st j st.orders[j]).agg.vol = 0 := by
+            simp [stFull, (aggAfter_same t st.agg st.orders[j].vol).2.2.2.1, hrem]
+          have hstop : matchQ t q (stFull t st j st.orders[j]) = (q, stFull t st j st.orders[j]) := by
+            cases q with
+            | nil => simp [matchQ]
+            | cons i q' =>
+              have hi : i < (stFull t st j st.orders[j]).orders.length := hv' i (List.mem_cons_self ..)
+              exact matchQ_cons_stop t i q' _ _ (List.getElem?_eq_getElem hi) (Or.inl hz)
+          rw [hstop]
+          simp only [hz, ↓reduceIte]
+          simp [stFull, aggAfter, hrem]
+        · have hpos : 0 < (stFull t st j st.orders[j]).agg.vol := by
+            simp only [stFull, (aggAfter_same t st.agg st.orders[j].vol).2.2.2.1]; omega
+          have IH := ih (stFull t st j st.orders[j]) hv' hpos
+          have hs : (stFull t st j st.orders[j]).agg.status = st.agg.status ∧ (stFull t st j st.orders[j]).agg.endt = st.agg.endt := by
+            simp [stFull, aggAfter, hrem]
+          rw [hs.1, hs.2] at IH
+          exact IH
+      · rw [matchQ_cons_part t j q st _ hget hV had (Nat.lt_of_not_le hle)]
+        simp [stPart, aggAfter]
+    · have had' : admits st.agg.side st.agg.price st.orders[j].price = false := by
+        cases h : admits st.agg.side st.agg.price st.orders[j].price <;> simp_all
+      rw [matchQ_cons_stop t j q st _ hget (Or.inr had')]
+      have : st.agg.vol ≠ 0 := by omega
+      simp [this]
+
+/-- Matching never changes a price: the table after the loop prices every id as before. -/
+theorem fold_priceOf (t : Nat) (l : List (Nat × Nat)) (os : List Order) (i : Nat) :
+    priceOf (l.foldl (fun os x => os.set x.1 (filledBy t (orderAt os x.1) x.2)) os) i = priceOf os i := by
+  induction l generalizing os with
+  | nil => rfl
+  | cons x l ih =>
+    simp only [List.foldl_cons]
+    rw [ih]
+    by_cases hx : x.1 < os.length
+    · have hget : os[x.1]? = some os[x.1] := List.getElem?_eq_getElem hx
+      exact priceOf_set_same os x.1 os[x.1] _ hget (by simp only [orderAt, hget, Option.getD_some]; unfold filledBy; split <;> rfl) i
+    · rw [List.set_eq_of_length_le (Nat.le_of_not_lt hx)]
+
 /-- On a queue sorted by price priority the admissible orders form a prefix: the longest admissible
 prefix is *every* admissible resting order (nothing admissible is skipped). -/
 theorem admissible_prefix_is_all (os : List Order) (sd : Side) (limit : Nat) (q : List Nat)
